@@ -4,6 +4,7 @@ pub mod c01;
 pub mod c02;
 pub mod c03;
 pub mod c04;
+pub mod c05;
 pub mod c06;
 pub mod c16;
 pub mod c19;
@@ -14,6 +15,7 @@ pub fn table() -> Vec<Prop> {
         Prop { id: "C02", run: c02::run, replay: c02::replay },
         Prop { id: "C03", run: c03::run, replay: c03::replay },
         Prop { id: "C04", run: c04::run, replay: c04::replay },
+        Prop { id: "C05", run: c05::run, replay: c05::replay },
         Prop { id: "C06", run: c06::run, replay: c06::replay },
         Prop { id: "C16", run: c16::run, replay: c16::replay },
         Prop { id: "C19", run: c19::run, replay: c19::replay },
